@@ -62,7 +62,7 @@ func c11Docs() []bson.D {
 }
 
 func c11Cases() []c11Case {
-	paths := []string{"a", "a.b", "a.b.c", "a.0", "a.1", "a.5", "a.0.x", "a.$[]", "a.$[].x", "a.$[i]", "a.$[i].x", "n"}
+	paths := []string{"a", "a.b", "a.b.c", "a.0", "a.1", "a.5", "a.0.x", "a.$[]", "a.$[].x", "a.$[i]", "a.$[i].x", "n", "a.+1"} // "+1" is a field name, not an index
 	filterSets := [][]bson.D{nil, {bD("i", bD("$gte", int32(2)))}, {bD("i.x", int32(1))}, {bD("i", int32(1)), bD("j", int32(2))}}
 	var out []c11Case
 	add := func(op, path string, arg interface{}) {
